@@ -61,7 +61,7 @@ def gen_case(rng, transport, big_ok):
                 if x < 0.6:
                     return bytes(range(256))
                 if x < 0.65 and big_ok:
-                    n = rng.choice([65536, 100000, 262144])
+                    n = rng.choice([65536, 100000, 262144, 1 << 20])
                     return bytes((i * 7 + n) & 0xff for i in range(n))
                 return ''.join(rng.choice(TEXT) for _ in range(rng.randint(0, 20)))   # str in bytes mode -> UTF-8
             chars = [c for c in TEXT if _encodable(c, enc)]
@@ -75,7 +75,10 @@ def gen_case(rng, transport, big_ok):
         else:
             calls.append([kind, payload()])
     return {'transport': transport, 'enc': enc, 'calls': calls,
-            'delay': rng.random() < 0.05}
+            'delay': rng.random() < 0.05,
+            # a socket obtained with a timeout (socket.create_connection(addr, timeout=...)) is in timeout mode,
+            # where a single send() may be short
+            'sock_timeout': transport == 'socket' and rng.random() < 0.5}
 
 
 class Expect(object):
@@ -108,6 +111,9 @@ def one(case, acc):
     L = Link(tr, **kw)
     try:
         c = L.child
+        if case.get('sock_timeout'):
+            L.sock.settimeout(30)
+            acc.count('socket_in_timeout_mode')
         if tr == 'pty':
             c.delaybeforesend = 0.05 if case['delay'] else None
             cc = termios.tcgetattr(c.child_fd)[6]
